@@ -276,6 +276,9 @@ class Gen:
     def g_raise(self, depth):
         rng = self.rng
         kind = rng.choice(['err', 'err', 'err', 'key', 'index', 'lookup'])
+        if rng.random() < 0.12:
+            # subclasses of the exceptions that scopes treat specially
+            kind = rng.choice(['exit', 'kbd', 'assert'])
         return {'op': 'raise', 'kind': kind, 'tag': self.next_id('e')}
 
     def g_ticker(self, depth):
